@@ -483,6 +483,16 @@ def main():
         own = json.load(open(own_path)) if os.path.exists(own_path) else {}
         own.update(bl); bl = own
         json.dump(bl, open(os.path.join(VERIF, 'baseline', prop + '.json'), 'w'), indent=1, sort_keys=True)
+        # a harness that is re-recorded may have renamed or dropped obligations: its entries in the files of the OTHER properties are
+        # obsolete (the union of load_baseline would keep asking for the old names); this property's file now carries it
+        ran = set(r['harness'] for r in results if r['status'] == 'pass')
+        for q in glob.glob(os.path.join(VERIF, 'baseline', 'C*.json')):
+            if q == own_path: continue
+            try: other = json.load(open(q))
+            except Exception: continue
+            if ran & set(other):
+                for h in ran: other.pop(h, None)
+                json.dump(other, open(q, 'w'), indent=1, sort_keys=True)
         baseline = bl
     violations = []; undecided = []; known_hits = []
     metas_by = {m['name']: m for m in metas}
